@@ -23,6 +23,7 @@ Template language (a `.vt.rs` file is Rust text with directive lines starting wi
   //@subst /<regex>/ => <text> [#n|#all]   declared rewrite of the matched text on one line (logged)
   //@forname <k> <ident>       `for x in e` -> `for x in <ident>: e` for the k-th loop (insertion)
   //@noresname                 do not name the result (`-> T` stays)
+  //@lowerguards /<regex>/ [#n] R8: lower the pure guards of the `match` on that line into its scrutinee
   //@attr                      following lines (verifier attributes) inserted in front of the item
   //@end
 
@@ -402,6 +403,93 @@ def _loops(item_text, body_open):
     return res
 
 
+
+def lower_guards(text, match_off, log, name):
+    """R8 guard lowering (Verus 0.2026.09 mishandles a guarded arm that mutates state and falls
+    through):   match E { P1 if G1 => B1, P2 => B2, _ => B3 }
+            =>  match (E, G1) { (P1, true) => B1, (P2, _) => B2, _ => B3 }
+    Purely mechanical; only applied when every guard is *pure and binding-free*: the guarded patterns
+    bind no identifiers and the guards contain no call, `?`, or assignment (checked here).
+    Returns a list of (start, end, replacement) substitutions."""
+    toks = lex(text)
+    ct = code_tokens(text, toks)
+    mi = next(i for i, (k, s, e) in enumerate(ct) if s == match_off)
+    # scrutinee: up to the first '{' at depth 0
+    h = mi + 1
+    while True:
+        k, s, e = ct[h]
+        if k == "punct" and text[s] in "([":
+            h = match_brace(text, ct, h)
+        elif k == "punct" and text[s] == "{":
+            break
+        h += 1
+    scrut = (ct[mi + 1][1], ct[h - 1][2])
+    close = match_brace(text, ct, h)
+    arms = []
+    j = h + 1
+    while j < close:
+        # pattern
+        ps = j
+        gi = None
+        while True:
+            k, s, e = ct[j]
+            if k == "punct" and text[s] in "([{":
+                j = match_brace(text, ct, j)
+            elif k == "ident" and text[s:e] == "if" and gi is None:
+                gi = j
+            elif k == "punct" and text[s] == "=" and text[ct[j + 1][1]] == ">" and ct[j + 1][1] == s + 1:
+                break
+            j += 1
+        arrow = j
+        pat_end = gi if gi is not None else arrow
+        pat = (ct[ps][1], ct[pat_end - 1][2])
+        guard = (ct[gi + 1][1], ct[arrow - 1][2]) if gi is not None else None
+        guard_span = (ct[gi][1], ct[arrow - 1][2]) if gi is not None else None
+        # body
+        j = arrow + 2
+        if text[ct[j][1]] == "{":
+            j = match_brace(text, ct, j) + 1
+            if j < close and text[ct[j][1]] == ",":
+                j += 1
+        else:
+            while j < close:
+                k, s, e = ct[j]
+                if k == "punct" and text[s] in "([{":
+                    j = match_brace(text, ct, j)
+                elif k == "punct" and text[s] == ",":
+                    j += 1
+                    break
+                j += 1
+        arms.append({"pat": pat, "guard": guard, "guard_span": guard_span})
+    guards = [a for a in arms if a["guard"]]
+    if not guards:
+        raise AnchorLost(f"{name}: match has no guards to lower")
+    for a in guards:
+        g = text[a["guard"][0]:a["guard"][1]]
+        ptxt = text[a["pat"][0]:a["pat"][1]]
+        if re.search(r"\?|[^=!<>]=[^=]|\b[a-z_][A-Za-z0-9_]*\s*\(|\.\s*[a-z_][A-Za-z0-9_]*\s*\(", g):
+            raise AnchorLost(f"{name}: guard `{g}` is not pure (call, `?` or assignment): cannot lower")
+        # pattern must not bind identifiers: allow literals, `_`, `|`, ranges, and paths/constructors
+        for m in re.finditer(r"\b([a-z_][a-z0-9_]*)\b", re.sub(r"b'(\\.|[^'])'|'(\\.|[^'])'|\"[^\"]*\"", "", ptxt)):
+            if m.group(1) != "_" and not re.match(r"^(b|r|br)$", m.group(1)):
+                raise AnchorLost(f"{name}: pattern `{ptxt}` binds `{m.group(1)}`: cannot lower its guard")
+    n = len(guards)
+    subs = []
+    gtxt = [text[a["guard"][0]:a["guard"][1]] for a in guards]
+    subs.append((scrut[0], scrut[1], "(" + text[scrut[0]:scrut[1]] + ", " + ", ".join("(" + g + ")" for g in gtxt) + ")"))
+    gi = 0
+    for a in arms:
+        ptxt = text[a["pat"][0]:a["pat"][1]]
+        if a["guard"]:
+            flags = ["true" if k == gi else "_" for k in range(n)]
+            gi += 1
+            # replace `PAT if GUARD` by the tuple pattern
+            subs.append((a["pat"][0], a["guard_span"][1], "(" + ptxt + ", " + ", ".join(flags) + ")"))
+        elif ptxt.strip() != "_":
+            subs.append((a["pat"][0], a["pat"][1], "(" + ptxt + ", " + ", ".join(["_"] * n) + ")"))
+    log.append(f"R8 {name}: guards of `match {text[scrut[0]:scrut[1]]}` lowered into the scrutinee tuple: " + "; ".join(gtxt))
+    return subs
+
 PROBE = "proof { assert(false); } /*probe*/"
 
 
@@ -522,6 +610,13 @@ def splice_fn(item, directives, log, probe=False):
               for m in chosen:
                   substs.append((m.start(), m.end(), m.expand(d["repl"])))
                   log.append(f"SUBST {item.name}: `{m.group(0)}` => `{m.expand(d['repl'])}`")
+          elif op == "lowerguards":
+              a, b, ln = find_line(d["rx"], d["n"])
+              mm = re.search(r"\bmatch\b", ln)
+              if not mm:
+                  raise AnchorLost(f"{item.name}: no `match` on line /{d['rx']}/")
+              for (x, y, r) in lower_guards(text, a + mm.start(), log, item.name):
+                  substs.append((x, y, r))
           elif op == "noresname":
               pass
           elif op == "attr":
@@ -595,7 +690,7 @@ def build_unit(template_path, repo, verif_root, probe=False):
                 closed = False
                 def _has_dirs(k):
                     mm = _dir.match(lines[k]) if k < len(lines) else None
-                    return bool(mm) and mm.group(1).rstrip("?") in ("sig", "loop", "forname", "before", "after", "subst", "noresname", "attr", "end")
+                    return bool(mm) and mm.group(1).rstrip("?") in ("sig", "loop", "forname", "before", "after", "subst", "noresname", "attr", "lowerguards", "end")
                 while (kind == "fn" or _has_dirs(i) or dirs) and i < len(lines):
                     m2 = _dir.match(lines[i])
                     if m2:
@@ -621,6 +716,9 @@ def build_unit(template_path, repo, verif_root, probe=False):
                             n = mm.group(4) or "1"
                             cur = {"op": "subst", "rx": mm.group(1), "repl": mm.group(2),
                                    "n": "all" if n == "all" else int(n), "text": ""}
+                        elif op2 == "lowerguards":
+                            mm = re.match(r"/(.*)/\s*(#(\d+))?$", rest2)
+                            cur = {"op": "lowerguards", "rx": mm.group(1), "n": int(mm.group(3) or 1), "text": ""}
                         elif op2 == "noresname":
                             cur = {"op": "noresname", "text": ""}
                         elif op2 == "attr":
